@@ -2,6 +2,7 @@ package main
 
 import (
 	"fmt"
+	"math/big"
 	"os"
 	"sort"
 	"strings"
@@ -67,6 +68,7 @@ type Pos struct {
 	Locked bool
 	// EverInRange is maintained by the ledger from observed pool ticks after every transition.
 	EverInRange bool
+	R           PosR // reward reference (C08)
 }
 
 type IncRec struct {
@@ -92,6 +94,7 @@ type Ledger struct {
 	Claims        int
 	PartialFills  int
 	Overcharged   int
+	R             Rewards // reward reference (C08)
 }
 
 func (l *Ledger) Clone() *Ledger {
@@ -102,6 +105,7 @@ func (l *Ledger) Clone() *Ledger {
 	n.SpreadClaimed = append(sdk.Coins{}, l.SpreadClaimed...)
 	n.IncPaidIn = append(sdk.Coins{}, l.IncPaidIn...)
 	n.IncClaimed = append(sdk.Coins{}, l.IncClaimed...)
+	n.R.Recs = append([]IncR{}, l.R.Recs...)
 	return &n
 }
 
@@ -133,7 +137,7 @@ func sdkInt(n int64) sdkmath.Int { return sdkmath.NewInt(n) }
 
 // NewWorld builds the app, the pool and the range table for a configuration.
 func NewWorld(cfg Config) *World {
-	fund := core.Coins(Denom0, "1000000000000000000000", Denom1, "1000000000000000000000", "uosmo", "100000000000", IncDen, "1000000000000000")
+	fund := core.Coins(Denom0, "1000000000000000000000", Denom1, "1000000000000000000000", "uosmo", "100000000000", IncDen, "1000000000000000", incDenoms[0], "1000000000000000", incDenoms[1], "1000000000000000", incDenoms[2], "1000000000000000")
 	env := core.NewEnv(core.GenesisOpts{Balances: map[string]sdk.Coins{"A": fund, "B": fund, "C": fund, "T": fund, "I": fund}})
 	a, ctx := env.App, env.Ctx
 	w := &World{Env: env, App: a, Cfg: cfg, SF: osmomath.MustNewDecFromStr(cfg.SpreadFactor)}
@@ -285,7 +289,8 @@ func (w *World) Apply(ctx sdk.Context, l *Ledger, op Op, fail func(a, s, d strin
 		}
 		var resp cltypes.MsgCreatePositionResponse
 		mustUnmarshal(r.Res, &resp)
-		l.Pos = append(l.Pos, Pos{ID: resp.PositionId, Owner: op.A, Lower: resp.LowerTick, Upper: resp.UpperTick, Liq: resp.LiquidityCreated, Join: ctx.BlockTime()})
+		l.Pos = append(l.Pos, Pos{ID: resp.PositionId, Owner: op.A, Lower: resp.LowerTick, Upper: resp.UpperTick, Liq: resp.LiquidityCreated, Join: ctx.BlockTime(), R: newPosR()})
+		l.Pos[len(l.Pos)-1].R.BornSeq = l.R.Redeposits
 		l.LiqChanges++
 		after := bal(w, ctx, core.Acc(op.A))
 		paid := before.Sub(after...)
@@ -306,6 +311,10 @@ func (w *World) Apply(ctx sdk.Context, l *Ledger, op Op, fail func(a, s, d strin
 		msg := &cltypes.MsgAddToPosition{PositionId: p.ID, Sender: core.Acc(p.Owner).String(), Amount0: sdkInt(op.X), Amount1: sdkInt(op.Y),
 			TokenMinAmount0: sdkmath.ZeroInt(), TokenMinAmount1: sdkmath.ZeroInt()}
 		inc0 := bal(w, ctx, core.Acc(p.Owner))
+		var csBefore sdk.Coins
+		if l.R.On {
+			csBefore, _ = a.ConcentratedLiquidityKeeper.GetClaimableSpreadRewards(ctx, p.ID)
+		}
 		r := core.Deliver(a, ctx, msg)
 		if !r.OK() {
 			return ctx, errClass(r.Err)
@@ -321,8 +330,27 @@ func (w *World) Apply(ctx sdk.Context, l *Ledger, op Op, fail func(a, s, d strin
 		// paid out during the implied full withdrawal.
 		inc1 := bal(w, ctx, core.Acc(p.Owner))
 		l.noteClaimsFromBalance(inc0, inc1)
+		old := l.Pos[op.P] // copy
 		l.Pos = append(l.Pos[:op.P:op.P], l.Pos[op.P+1:]...)
-		l.Pos = append(l.Pos, Pos{ID: resp.PositionId, Owner: p.Owner, Lower: p.Lower, Upper: p.Upper, Liq: np.Liquidity, Join: ctx.BlockTime(), EverInRange: p.EverInRange})
+		if l.R.On {
+			// the implied full withdrawal settles the old id: incentives by the uptime rule, spread rewards in full
+			forfeit, ent := settleIncentives(w, &old, ctx.BlockTime())
+			other := w.activeLiq(ctx, l).Cmp(ratInt(1)) >= 0
+			w.redeposit(ctx, l, forfeit, &old.R)
+			for u, d := range incDenoms {
+				got := inc1.AmountOf(d).Sub(inc0.AmountOf(d))
+				old.R.CumInc[u] = old.R.CumInc[u].Add(got)
+				if !ent[u] && got.IsPositive() && other {
+					fail("c08.uptime-not-met-not-paid", "", fmt.Sprintf("add: position %d age %s < uptime %s was paid %s %s while other liquidity is active", old.ID, ctx.BlockTime().Sub(old.Join), w.Uptime[u], got, d))
+				}
+			}
+			for i, d := range []string{Denom0, Denom1} {
+				old.R.CumSpread[i] = old.R.CumSpread[i].Add(csBefore.AmountOf(d))
+			}
+			w.retire(l, &old, fail)
+		}
+		l.Pos = append(l.Pos, Pos{ID: resp.PositionId, Owner: p.Owner, Lower: p.Lower, Upper: p.Upper, Liq: np.Liquidity, Join: ctx.BlockTime(), EverInRange: false, R: newPosR()})
+		l.Pos[len(l.Pos)-1].R.BornSeq = l.R.Redeposits
 		l.LiqChanges += 2
 		if np.Liquidity.LT(p.Liq) {
 			fail("add.liquidity-not-decreased", "", fmt.Sprintf("old %s new %s", p.Liq, np.Liquidity))
@@ -355,10 +383,36 @@ func (w *World) Apply(ctx sdk.Context, l *Ledger, op Op, fail func(a, s, d strin
 		}
 		l.noteClaims(got, resp.Amount0, resp.Amount1)
 		l.LiqChanges++
-		if amt.Equal(p.Liq) {
+		full := amt.Equal(p.Liq)
+		cur := l.Pos[op.P] // copy
+		if full {
 			l.Pos = append(l.Pos[:op.P:op.P], l.Pos[op.P+1:]...)
 		} else {
 			l.Pos[op.P].Liq = p.Liq.Sub(amt)
+			l.Pos[op.P].R.Touched = true
+			l.Pos[op.P].R.LiqCh++
+		}
+		if l.R.On {
+			tgt := &cur
+			if !full {
+				tgt = &l.Pos[op.P]
+			}
+			forfeit, ent := settleIncentives(w, tgt, ctx.BlockTime())
+			// "other liquidity": active liquidity not counting this position
+			otherL := w.activeLiq(ctx, l)
+			if !full && inRangeTick(tgt, w.pool(ctx).GetCurrentTick()) {
+				otherL = new(big.Rat).Sub(otherL, ratDec(tgt.Liq))
+			}
+			w.redeposit(ctx, l, forfeit, &tgt.R)
+			notePaid(&tgt.R, got, resp.Amount0, resp.Amount1)
+			for u, d := range incDenoms {
+				if !ent[u] && got.AmountOf(d).IsPositive() && otherL.Cmp(ratInt(1)) >= 0 {
+					fail("c08.uptime-not-met-not-paid", "", fmt.Sprintf("withdraw: position %d age %s < uptime %s was paid %s %s while other liquidity is active", tgt.ID, ctx.BlockTime().Sub(tgt.Join), w.Uptime[u], got.AmountOf(d), d))
+				}
+			}
+			if full {
+				w.retire(l, tgt, fail)
+			}
 		}
 	case "swapin", "swapout":
 		in, out := Denom0, Denom1
@@ -367,6 +421,9 @@ func (w *World) Apply(ctx sdk.Context, l *Ledger, op Op, fail func(a, s, d strin
 		}
 		t := core.Acc("T")
 		before := bal(w, ctx, t)
+		sc := w.beforeSwap(ctx, l)
+		feeAcct := w.pool(ctx).GetSpreadRewardsAddress()
+		feeBefore := w.App.BankKeeper.GetBalance(ctx, feeAcct, in).Amount
 		var r core.MsgResult
 		if op.K == "swapin" {
 			r = core.Deliver(a, ctx, &pmtypes.MsgSwapExactAmountIn{Sender: t.String(), Routes: []pmtypes.SwapAmountInRoute{{PoolId: w.PoolID, TokenOutDenom: out}},
@@ -416,6 +473,7 @@ func (w *World) Apply(ctx sdk.Context, l *Ledger, op Op, fail func(a, s, d strin
 		if !amtIn.IsPositive() || !amtOut.IsPositive() {
 			fail("swap.no-zero-sided-success", "", fmt.Sprintf("in=%s out=%s", amtIn, amtOut))
 		}
+		w.afterSwap(l, sc, op.D == 0, amtIn, w.App.BankKeeper.GetBalance(ctx, feeAcct, in).Amount.Sub(feeBefore), in)
 		// upper bound on the spread reward this swap can have produced
 		fee := amtIn.ToLegacyDec().Mul(w.SF).Ceil().TruncateInt()
 		l.SpreadPaidIn = l.SpreadPaidIn.Add(sdk.NewCoin(in, fee))
@@ -438,6 +496,12 @@ func (w *World) Apply(ctx sdk.Context, l *Ledger, op Op, fail func(a, s, d strin
 		}
 		l.SpreadClaimed = l.SpreadClaimed.Add(resp.CollectedSpreadRewards...)
 		l.Claims++
+		if l.R.On {
+			for i, d := range []string{Denom0, Denom1} {
+				l.Pos[op.P].R.CumSpread[i] = l.Pos[op.P].R.CumSpread[i].Add(resp.CollectedSpreadRewards.AmountOf(d))
+			}
+			l.Pos[op.P].R.Claims++
+		}
 	case "cinc":
 		if op.P >= len(l.Pos) {
 			return ctx, "rejected:no-such-position"
@@ -456,6 +520,22 @@ func (w *World) Apply(ctx sdk.Context, l *Ledger, op Op, fail func(a, s, d strin
 		}
 		l.IncClaimed = l.IncClaimed.Add(resp.CollectedIncentives...)
 		l.Claims++
+		if l.R.On {
+			tgt := &l.Pos[op.P]
+			forfeit, ent := settleIncentives(w, tgt, ctx.BlockTime())
+			otherL := w.activeLiq(ctx, l)
+			if inRangeTick(tgt, w.pool(ctx).GetCurrentTick()) {
+				otherL = new(big.Rat).Sub(otherL, ratDec(tgt.Liq))
+			}
+			// reference: what a position forfeits goes to the active liquidity (statement: nothing is lost)
+			w.redeposit(ctx, l, forfeit, &tgt.R)
+			for u, d := range incDenoms {
+				tgt.R.CumInc[u] = tgt.R.CumInc[u].Add(resp.CollectedIncentives.AmountOf(d))
+				if !ent[u] && resp.CollectedIncentives.AmountOf(d).IsPositive() && otherL.Cmp(ratInt(1)) >= 0 {
+					fail("c08.uptime-not-met-not-paid", "", fmt.Sprintf("collect: position %d age %s < uptime %s was paid %s %s while other liquidity is active", tgt.ID, ctx.BlockTime().Sub(tgt.Join), w.Uptime[u], resp.CollectedIncentives.AmountOf(d), d))
+				}
+			}
+		}
 	case "transfer":
 		if op.P >= len(l.Pos) {
 			return ctx, "rejected:no-such-position"
@@ -470,16 +550,24 @@ func (w *World) Apply(ctx sdk.Context, l *Ledger, op Op, fail func(a, s, d strin
 		}
 		l.Pos[op.P].Owner = op.A
 	case "incentive":
-		coin := sdk.NewCoin(IncDen, sdkInt(op.X))
+		den := IncDen
+		if l.R.On {
+			den = incDenoms[op.D]
+		}
+		coin := sdk.NewCoin(den, sdkInt(op.X))
 		rate := osmomath.NewDec(op.Y)
 		start := ctx.BlockTime()
 		rec, err := w.createIncentive(ctx, coin, rate, start, w.Uptime[op.D])
 		if err != nil {
 			return ctx, errClass(err)
 		}
-		l.Incentives = append(l.Incentives, IncRec{ID: rec.IncentiveId, Denom: IncDen, Amount: coin.Amount, Uptime: w.Uptime[op.D], Start: start})
+		l.Incentives = append(l.Incentives, IncRec{ID: rec.IncentiveId, Denom: den, Amount: coin.Amount, Uptime: w.Uptime[op.D], Start: start})
 		l.IncPaidIn = l.IncPaidIn.Add(coin)
+		if l.R.On {
+			l.R.Recs = append(l.R.Recs, IncR{U: op.D, Rate: ratInt(op.Y), Remaining: ratInt(op.X), Initial: coin.Amount})
+		}
 	case "tick":
+		w.emit(ctx, l, dts[op.D])
 		next, err := core.NextBlock(a, ctx, dts[op.D])
 		if err != nil {
 			fail("block.boundary-succeeds", "", err.Error())
@@ -585,6 +673,9 @@ func (w *World) Enabled(al *Alphabet) func(ctx sdk.Context, l *Ledger, depth int
 		}
 		if al.Incentive && len(l.Incentives) < 2 {
 			ops = append(ops, Op{K: "incentive", X: 1000000, Y: 10, D: 0}, Op{K: "incentive", X: 7777, Y: 1, D: 1})
+			if l.R.On {
+				ops = append(ops, Op{K: "incentive", X: 500000, Y: 3, D: 2})
+			}
 		}
 		for _, t := range al.Ticks {
 			ops = append(ops, Op{K: "tick", D: t})
